@@ -43,16 +43,29 @@ assert rc == 0, o
 rc, o = sh("cargo test --workspace --offline 2>&1", cwd=wt)
 suite = summarize(o)
 ran.append({"cmd": "cargo test --workspace --offline (patch applied, no demo)", "result": suite})
-shutil.copy(demo, demo_dst)
-rc, o = sh("cargo test -p %s --offline --test seeded_demo 2>&1" % crate, cwd=wt)
-with_patch = summarize(o)
-ran.append({"cmd": "cargo test -p %s --test seeded_demo (patch applied)" % crate, "result": with_patch})
-sh("git apply -R %s" % patch, cwd=wt)
-rc, o = sh("cargo test -p %s --offline --test seeded_demo 2>&1" % crate, cwd=wt)
-without = summarize(o)
-ran.append({"cmd": "cargo test -p %s --test seeded_demo (patch reverted)" % crate, "result": without})
-os.remove(demo_dst)
-sh("git checkout -- .", cwd=wt)
+demo_sh = os.path.join(sdir, "demo.sh")
+if os.path.exists(demo_sh):
+    # a shell demonstration (the binary with a capturing generator): exit status decides
+    demo = demo_sh
+    rc1, o = sh("bash %s 2>&1" % demo_sh, cwd=wt)
+    with_patch = {"exit": rc1, "failed": 1 if rc1 not in (0, 2) else 0, "ok": rc1 == 0}
+    ran.append({"cmd": "bash demo.sh (patch applied)", "result": with_patch, "tail": o.strip().split("\n")[-3:]})
+    sh("git apply -R %s" % patch, cwd=wt)
+    rc2, o = sh("bash %s 2>&1" % demo_sh, cwd=wt)
+    without = {"exit": rc2, "failed": 0 if rc2 == 0 else 1, "ok": rc2 == 0}
+    ran.append({"cmd": "bash demo.sh (patch reverted)", "result": without, "tail": o.strip().split("\n")[-3:]})
+    sh("git checkout -- . && rm -rf demo-scratch", cwd=wt)
+else:
+    shutil.copy(demo, demo_dst)
+    rc, o = sh("cargo test -p %s --offline --test seeded_demo 2>&1" % crate, cwd=wt)
+    with_patch = summarize(o)
+    ran.append({"cmd": "cargo test -p %s --test seeded_demo (patch applied)" % crate, "result": with_patch})
+    sh("git apply -R %s" % patch, cwd=wt)
+    rc, o = sh("cargo test -p %s --offline --test seeded_demo 2>&1" % crate, cwd=wt)
+    without = summarize(o)
+    ran.append({"cmd": "cargo test -p %s --test seeded_demo (patch reverted)" % crate, "result": without})
+    os.remove(demo_dst)
+    sh("git checkout -- .", cwd=wt)
 confirmed = suite["ok"] and suite["failed"] == 0 and with_patch["failed"] > 0 and without["ok"] and without["failed"] == 0
 
 # run the check against the change
@@ -77,9 +90,9 @@ if confirmed:
         sh("python3 /verif/tools/regen.py >/dev/null")
 meta = json.load(open(os.path.join(sdir, "meta.json"))) if os.path.exists(os.path.join(sdir, "meta.json")) else {}
 meta.update({"property": prop, "confirmed_independently": confirmed, "confirmation_runs": ran, "check_result": checks,
-             "caught": bool(checks.get("quick", {}).get("violation_lines")), "demo_location": "%s/tests/seeded_demo.rs" % crate})
+             "caught": bool(checks.get("quick", {}).get("violation_lines")), "demo_location": ("demo.sh (run in a worktree)" if demo.endswith(".sh") else "%s/tests/seeded_demo.rs" % crate)})
 shutil.copy(patch, os.path.join(out, "patch.diff"))
-shutil.copy(demo, os.path.join(out, "demo.rs"))
+shutil.copy(demo, os.path.join(out, os.path.basename(demo)))
 if runtxt:
     open(os.path.join(out, "run.txt"), "w").write(runtxt)
 json.dump(meta, open(os.path.join(out, "meta.json"), "w"), indent=1)
